@@ -38,7 +38,7 @@ var verifDir = func() string {
 }()
 
 const (
-	goBin    = "/opt/veriftools/go1.26.8/bin/go"
+	goBin = "/opt/veriftools/go1.26.8/bin/go"
 )
 
 type propCfg struct {
@@ -46,7 +46,7 @@ type propCfg struct {
 	Pkgs         string
 	FSPkgs       string
 	ExtPkgs      string
-	MapPkgs      string // packages whose map accesses are reported to the happens-before race tracker
+	MapPkgs      string   // packages whose map accesses are reported to the happens-before race tracker
 	Also         *propCfg // a second stage of the same property on another harness (run first, in a sub-process; merged into verdict and evidence)
 	QuickRuns    int
 	ThoroughRuns int
@@ -105,9 +105,9 @@ func init() {
 	props["C02"] = &propCfg{
 		Harness: "dbsim", Pkgs: dbPkgs, ExtPkgs: "go.etcd.io/bbolt,github.com/bluele/gcache", QuickRuns: 6000, ThoroughRuns: 300000, RunsPerProc: 150,
 		QuickWall: 75 * time.Second, ThoroughWall: 15 * time.Minute, Level: "exploration",
-		Rule: "one evaluation = one simulated run: a generated history of put, put-new, get, exists, delete, batch put, purge, absolute/relative expiry, record-state and full maintenance, queries (prefix incl. non-boundary prefixes, nested and/or/not over 17 operators), clock advances and cache clears through one database interface against backend in {hashmap, fstree, bbolt, badger} x shadow delete x cache {none, read cache, delayed-write cache}, compared step by step with a key-to-record map; plus producer/consumer schedules of a query that ends with an injected storage error; distinct = distinct hash of configuration + operation kinds; non-trivial = at least 2 goroutine switches",
-		Real: []string{"portbase/database incl. interface, controller, caches, iterator, maintenance (instrumented)", "storage backends hashmap, fstree (real directory), bbolt, badger (portbase side instrumented; bbolt/badger/gcache libraries real, uninstrumented)", "database/query, record, accessor (real)"},
-		Stub: []string{"simfault storage wrapper around hashmap for the query-error scenario (harness code)"},
+		Rule:   "one evaluation = one simulated run: a generated history of put, put-new, get, exists, delete, batch put, purge, absolute/relative expiry, record-state and full maintenance, queries (prefix incl. non-boundary prefixes, nested and/or/not over 17 operators), clock advances and cache clears through one database interface against backend in {hashmap, fstree, bbolt, badger} x shadow delete x cache {none, read cache, delayed-write cache}, compared step by step with a key-to-record map; plus producer/consumer schedules of a query that ends with an injected storage error; distinct = distinct hash of configuration + operation kinds; non-trivial = at least 2 goroutine switches",
+		Real:   []string{"portbase/database incl. interface, controller, caches, iterator, maintenance (instrumented)", "storage backends hashmap, fstree (real directory), bbolt, badger (portbase side instrumented; bbolt/badger/gcache libraries real, uninstrumented)", "database/query, record, accessor (real)"},
+		Stub:   []string{"simfault storage wrapper around hashmap for the query-error scenario (harness code)"},
 		Assume: []string{"single client goroutine for the equality clauses: third-party libraries are never entered by two goroutines at once"},
 	}
 	c14 := *props["C02"]
@@ -130,9 +130,9 @@ func init() {
 		Harness: "fssim", Pkgs: "log,utils,utils/renameio,database/storage/fstree,updater", FSPkgs: "utils,utils/renameio,database/storage/fstree,updater",
 		QuickRuns: 400, ThoroughRuns: 20000, RunsPerProc: 25,
 		QuickWall: 75 * time.Second, ThoroughWall: 15 * time.Minute, Level: "fault_enumeration",
-		Rule: "one evaluation = one workload case (primitive in {renameio.WriteFile, TempFile+CloseAtomicallyReplace, renameio.Symlink, CreateAtomic, CopyFileAtomic, ReplaceFileAtomic, fstree Put, resource download through ResourceRegistry.GetFile with a scripted transport (truncated body, mid-body error, status 500, over-long body, retries), File.Unpack with UnpackGZIP, Resource.UnpackArchive of a zip} x destination state {absent, present, present with other mode} x old/new content size x temp-dir choice x 0-3 concurrent readers); per case the fault-free run is recorded and then EVERY mutating file-system call is enumerated as crash point (process killed immediately before it) and as ENOSPC/EIO error point, plus short writes (exception, probe fault-points-sampled: when a case has more than 60 mutating calls and more than 24 of them are chunk writes to the temporary file - multi-megabyte content - every call that is not a write plus the first, the last and 22 evenly spaced writes are taken); unpackzip cases additionally run two overlapping unpack calls for the same archive with readers; distinct = distinct case description; non-trivial = every case (each has at least one crash point); the number of enumerated fault points is reported as probe fault-points-enumerated",
-		Real: []string{"utils/renameio, utils (atomic helpers), database/storage/fstree, updater fetch/unpack (instrumented, os.* redirected to the disk seam)", "the real file system below a scratch directory"},
-		Stub: []string{"disk seam sim/simfs: logs every call, injects crash points / errno / short writes, otherwise passes through to package os"},
+		Rule:   "one evaluation = one workload case (primitive in {renameio.WriteFile, TempFile+CloseAtomicallyReplace, renameio.Symlink, CreateAtomic, CopyFileAtomic, ReplaceFileAtomic, fstree Put, resource download through ResourceRegistry.GetFile with a scripted transport (truncated body, mid-body error, status 500, over-long body, retries), File.Unpack with UnpackGZIP, Resource.UnpackArchive of a zip} x destination state {absent, present, present with other mode} x old/new content size x temp-dir choice x 0-3 concurrent readers); per case the fault-free run is recorded and then EVERY mutating file-system call is enumerated as crash point (process killed immediately before it) and as ENOSPC/EIO error point, plus short writes (exception, probe fault-points-sampled: when a case has more than 60 mutating calls and more than 24 of them are chunk writes to the temporary file - multi-megabyte content - every call that is not a write plus the first, the last and 22 evenly spaced writes are taken); unpackzip cases additionally run two overlapping unpack calls for the same archive with readers; distinct = distinct case description; non-trivial = every case (each has at least one crash point); the number of enumerated fault points is reported as probe fault-points-enumerated",
+		Real:   []string{"utils/renameio, utils (atomic helpers), database/storage/fstree, updater fetch/unpack (instrumented, os.* redirected to the disk seam)", "the real file system below a scratch directory"},
+		Stub:   []string{"disk seam sim/simfs: logs every call, injects crash points / errno / short writes, otherwise passes through to package os"},
 		Assume: []string{"a crash is modelled as 'nothing after the crash point has any effect' (deferred clean-up of the killed operation is suppressed); loss of un-fsynced data is not modelled by dropping data but checked on the call log (last write < fsync < rename)", "the download transport is a scripted http.RoundTripper installed as http.DefaultTransport; signature verification is not configured"},
 	}
 	c18 := *props["C17"]
